@@ -229,7 +229,14 @@ inline std::vector<uint64_t> gen_positions(const KeyGenParams &p, Rng &cfg, Rng 
             seams = true;
             size_t a = std::min<size_t>(s - 1, std::max<size_t>(1, eps_len()));
             size_t b = std::min<size_t>(p.n - s - 1, std::max<size_t>(1, eps_len()));
-            switch (work.below(5)) {
+            switch (work.below(6)) {
+                case 5: { // run ending a few keys (1..2*eps+2) before the seam: the point the library adds after a run, the
+                          // short rest of the chunk and the next chunk's first segment all start within 2*eps ranks
+                    size_t j = std::min<size_t>(s - 1, (size_t) work.range(1, 2 * eps + 2));
+                    size_t from = s - j > a ? s - j - a : 0;
+                    for (size_t q = from; q < s - j; ++q) out[q] = out[from];
+                    break;
+                }
                 case 0: // duplicate run straddling the seam
                     for (size_t j = s - a; j < s + b; ++j) out[j] = out[s - a];
                     break;
@@ -241,6 +248,7 @@ inline std::vector<uint64_t> gen_positions(const KeyGenParams &p, Rng &cfg, Rng 
                     break;
                 case 3: { // a run longer than a whole chunk: the chunk is skipped entirely
                     size_t e = std::min(p.n - 1, s + chunk + work.below(3));
+                    if (work.coin()) { size_t back = (size_t) work.range(1, 2 * eps + 3); if (chunk > back + 2) e = std::min(p.n - 1, s + chunk - back); } // ... ending a few keys before the following seam
                     for (size_t j = s - 1; j <= e; ++j) out[j] = out[s - 1];
                     break;
                 }
